@@ -212,7 +212,45 @@ class PEval:
             return v.attrs[n.attr]
         return Sym(f'{v!r}.{n.attr}')
 
+    def _comp(self, n):
+        """elements of a comprehension / generator expression over displays (one generator, tuple or name target)"""
+        if len(n.generators) != 1:
+            raise Undecided('nested comprehension')
+        g = n.generators[0]
+        it = self.ev(g.iter)
+        if not isinstance(it, Lst):
+            raise Undecided(f'iteration over {it!r}')
+        out = []
+        saved = dict(self.env)
+        for item in it.items:
+            self.assign(g.target, item)
+            if all(truth(self.ev(c)) for c in g.ifs):
+                out.append(self.ev(n.elt))
+        self.env = saved
+        return out
+
+    def e_GeneratorExp(self, n):
+        return Lst(self._comp(n))
+
+    def e_ListComp(self, n):
+        return Lst(self._comp(n))
+
     def e_Call(self, n):
+        if isinstance(n.func, ast.Attribute) and n.func.attr in ('values', 'keys', 'items') and not n.args:
+            v = self.ev(n.func.value)
+            if isinstance(v, Dct):
+                return Lst([Lit(k) for k in v.d] if n.func.attr == 'keys' else list(v.d.values()) if n.func.attr == 'values' else [Lst([Lit(k), x], tup=True) for k, x in v.d.items()])
+        if isinstance(n.func, ast.Attribute) and n.func.attr in ('endswith', 'startswith', 'rstrip', 'lstrip', 'strip') and len(n.args) <= 1 and not n.keywords:
+            v = self.ev(n.func.value)
+            a = [self.ev(x) for x in n.args]
+            if isinstance(v, Lit) and isinstance(v.v, str) and all(isinstance(x, Lit) and isinstance(x.v, str) for x in a):
+                return Lit(getattr(v.v, n.func.attr)(*[x.v for x in a]))
+        if isinstance(n.func, ast.Name) and n.func.id in ('sum', 'any', 'all') and len(n.args) == 1:
+            v = self.ev(n.args[0])
+            if isinstance(v, Lst) and all(isinstance(x, Lit) for x in v.items):
+                vals = [x.v for x in v.items]
+                return Lit(sum(vals) if n.func.id == 'sum' else any(vals) if n.func.id == 'any' else all(vals))
+            raise Undecided(f'{n.func.id} of {v!r}')
         if isinstance(n.func, ast.Name) and n.func.id == 'len' and len(n.args) == 1:
             v = self.ev(n.args[0])
             if isinstance(v, Lst):
